@@ -101,7 +101,11 @@ func printStmt(sb *strings.Builder, n *N, depth int) {
 	sb.WriteString(ind(depth))
 	switch n.K {
 	case KAssign:
-		sb.WriteString(n.Str + " := ")
+		op := " := "
+		if n.Msg != "" {
+			op = " " + n.Msg + "= " // compound assignment: x += e
+		}
+		sb.WriteString(n.Str + op)
 		printExpr(sb, n.A, depth)
 	case KExprS:
 		printExpr(sb, n.A, depth)
@@ -349,7 +353,9 @@ func printExpr(sb *strings.Builder, n *N, depth int) {
 		printArgs(sb, n, depth)
 		sb.WriteString(")")
 	case KPropC:
-		printRecv(sb, n.A, depth)
+		if n.A != nil {
+			printRecv(sb, n.A, depth)
+		}
 		sb.WriteString(n.Chain.String())
 		if n.Chain.Arg != nil {
 			sb.WriteString("(")
